@@ -4,14 +4,26 @@ change applied; prints which packs report a new violation (development aid for D
 import concurrent.futures, glob, json, os, subprocess, sys
 VERIF = os.path.dirname(os.path.dirname(os.path.abspath(__file__)))
 IDS = ['C%02d' % i for i in range(1, 21)]
+KEYS = {}
+WORKERS = int(os.environ.get('MATRIX_WORKERS', '5'))
+OUT = os.environ.get('MATRIX_OUT', '/tmp/matrix-result.json')
 
 def one(d):
     name = os.path.basename(d)
     r = subprocess.run([sys.executable, os.path.join(VERIF, 'tools', 'trymut.py'), os.path.join(d, 'patch.diff')] + IDS, capture_output=True, text=True)
     hits = []
+    keys = {}
+    cur = None
     for l in r.stdout.splitlines():
-        if l[:3] in IDS and 'violations' in l and not l.endswith(': 0 violations'):
-            hits.append(l.split(':')[0])
+        if l[:3] in IDS and 'violations' in l:
+            cur = l.split(':')[0]
+            if not l.endswith(': 0 violations'):
+                hits.append(cur)
+        elif l.startswith('    ') and cur:
+            keys.setdefault(cur, []).append(l.strip()[:160])
+    # a pack whose only reports are floor counts did not decide anything about the change
+    hits = [h for h in hits if not keys.get(h) or any('<floor>' not in k for k in keys[h])]
+    KEYS[name] = keys
     return name, hits, r.stdout[-400:] if not hits else ''
 
 def main():
@@ -20,10 +32,11 @@ def main():
     if names:
         dirs = [d for d in dirs if os.path.basename(d) in names]
     out = {}
-    with concurrent.futures.ThreadPoolExecutor(max_workers=5) as ex:
+    with concurrent.futures.ThreadPoolExecutor(max_workers=WORKERS) as ex:
         for name, hits, tail in ex.map(one, dirs):
             own = name.split('-')[0]
             print('%-10s own=%s caught_by=%s%s' % (name, 'yes' if own in hits else 'NO', ','.join(hits) or '-', ('  ' + tail.replace('\n', ' | ')) if tail else ''), flush=True)
             out[name] = hits
-    json.dump(out, open('/tmp/matrix-result.json', 'w'), indent=1)
+    json.dump(out, open(OUT, 'w'), indent=1)
+    json.dump(KEYS, open(OUT.replace('.json', '-keys.json'), 'w'), indent=1)
 main()
